@@ -83,6 +83,6 @@ Print Assumptions C14_tick_to_sqrt_price_rejects.
 Example C14_sqrt_nonvacuous :
   tick_to_sqrt_price (-108000001) = Ok 999999949999998749999937499997 /\      (* 36-digit regime *)
   tick_to_sqrt_price (-108000000) = Ok MinSqrtPriceBigDec /\                  (* 18-digit regime *)
-  tick_to_sqrt_price (-107999999) = Ok 1000000499999875000000000000000 /\
+  tick_to_sqrt_price (-107999999) = Ok 1000000500000000000000000000000 /\
   tick_to_sqrt_price 342000000 = Ok MaxSqrtPriceBigDec.
 Proof. vm_compute. repeat split; reflexivity. Qed.
